@@ -182,10 +182,10 @@ static void OpFire(long long dt, int viaTimer)
 		(int)l_W.obj->GetSuppressedNotifications(), (int)l_W.obj->GetStateBeforeSuppression(), NotifStr().c_str());
 }
 
-static void OpDowntime(int i, bool add)
+static void OpDowntime(int i, bool add, bool flexible = false)
 {
 	if (add) {
-		if (l_W.dt[i]) { printf("D+ %d |\n", i); return; }
+		if (l_W.dt[i]) { printf("%s %d |\n", flexible ? "DF" : "D+", i); return; }
 		Downtime::Ptr d = new Downtime();
 		if (l_W.isHost) {
 			d->SetHostName(l_W.obj->GetName());
@@ -194,15 +194,20 @@ static void OpDowntime(int i, bool add)
 			d->SetServiceName("svc");
 		}
 		d->SetName(l_W.obj->GetName() + "!dt" + std::to_string(i));
-		d->SetFixed(true);
+		d->SetFixed(!flexible);
 		d->SetStartTime((double)l_Now - 3600);
 		d->SetEndTime((double)l_Now + 100000000.0);
+		if (flexible)
+			d->SetDuration(50000000.0);
 		l_W.obj->RegisterDowntime(d);
 		d->Register();
 		d->OnAllConfigLoaded();
-		d->TriggerDowntime((double)l_Now);
+		/* a fixed downtime is in effect at once; a flexible one waits for the next non-OK result
+		 * (Checkable::TriggerDowntimes inside ProcessCheckResult) */
+		if (!flexible)
+			d->TriggerDowntime((double)l_Now);
 		l_W.dt[i] = d;
-		printf("D+ %d |\n", i);
+		printf("%s %d |\n", flexible ? "DF" : "D+", i);
 	} else {
 		if (l_W.dt[i]) {
 			l_W.obj->UnregisterDowntime(l_W.dt[i]);
@@ -248,6 +253,8 @@ static bool ExecLine(const char *line)
 		OpFire(x, a);
 	} else if (sscanf(line, "D+ %d", &a) == 1) {
 		OpDowntime(a & 1, true);
+	} else if (sscanf(line, "DF %d", &a) == 1) {
+		OpDowntime(a & 1, true, true);
 	} else if (sscanf(line, "D- %d", &a) == 1) {
 		OpDowntime(a & 1, false);
 	} else if (sscanf(line, "A+ %d %lld", &a, &y) == 2) {
@@ -270,7 +277,7 @@ static bool ExecLine(const char *line)
 
 /* operation alphabet for the exhaustive part (7 symbols + results) */
 static const char *const kAlphabet[] = {
-	"R 0 10 1", "R 2 10 1", "R 1 10 1", "D+ 0", "D- 0", "A+ 0 0", "P 2", "P 0", "F 400 0", "F 0 0"
+	"R 0 10 1", "R 2 10 1", "R 1 10 1", "D+ 0", "D- 0", "A+ 0 0", "P 2", "P 0", "F 400 0", "F 0 0", "DF 1"
 };
 static const int kAlphabetN = sizeof(kAlphabet) / sizeof(kAlphabet[0]);
 
@@ -286,7 +293,8 @@ static void RandomOp(Rng& rng, char *buf, size_t n, int pFlapBias)
 	} else if (k < 60) {
 		static const int dts[] = {0, 1, 5, 30, 100, 400, 1000};
 		snprintf(buf, n, "F %d %d", dts[rng.below(7)], (int)rng.below(2));
-	} else if (k < 68) snprintf(buf, n, "D+ %d", (int)rng.below(2));
+	} else if (k < 64) snprintf(buf, n, "D+ %d", (int)rng.below(2));
+	else if (k < 68) snprintf(buf, n, "DF %d", (int)rng.below(2));
 	else if (k < 76) snprintf(buf, n, "D- %d", (int)rng.below(2));
 	else if (k < 83) { static const int ex[] = {0, 0, 5, 100}; snprintf(buf, n, "A+ %d %d", (int)rng.below(2), ex[rng.below(4)]); }
 	else if (k < 87) snprintf(buf, n, "A-");
@@ -302,7 +310,9 @@ int main(int argc, char **argv)
 
 	Checkable::OnNotificationsRequested.connect([](const Checkable::Ptr& checkable, NotificationType type,
 		const CheckResult::Ptr& cr, const String&, const String&, const MessageOrigin::Ptr&) {
-		if (checkable == l_Obj)
+		/* only the four types this property is about (DowntimeStart/End, Acknowledgement, Custom are C05/C06/C03) */
+		if (checkable == l_Obj && (type == NotificationProblem || type == NotificationRecovery ||
+			type == NotificationFlappingStart || type == NotificationFlappingEnd))
 			l_Notifs.emplace_back((int)type, cr ? (int)cr->GetState() : -1);
 	});
 
@@ -327,6 +337,7 @@ int main(int argc, char **argv)
 			/* end every suppression reason, let the object settle in a hard state, run the handler
 			 * directly and through the registered timer */
 			ExecLine("D- 0");
+			ExecLine("D- 1");
 			ExecLine("A-");
 			ExecLine("P 0");
 			ExecLine("F 1 0");
